@@ -59,10 +59,11 @@ Lemma st_ind' : forall P : st -> Prop,
   (forall c, P c -> P (SOptSome c)) -> (forall ph, P (SOptNone ph)) ->
   (forall l mk, Forall P l -> P (SVec l mk)) ->
   (forall l b, Forall P l -> P (SStatic l b)) ->
+  (forall rows mk g, Forall (fun r => P (snd r)) rows -> P (SKeyed rows mk g)) ->
   forall s, P s.
 Proof.
-  intros P H1 H2 H3 H4 H5 H6 H7 H8 H9. fix IH 1. intros s.
-  destruct s as [id k t|id|id tag prev d kids c|arr l|ar r c|c|ph|l mk|l b].
+  intros P H1 H2 H3 H4 H5 H6 H7 H8 H9 H10. fix IH 1. intros s.
+  destruct s as [id k t|id|id tag prev d kids c|arr l|ar r c|c|ph|l mk|l b|rows mk g].
   - apply H1.
   - apply H2.
   - apply H3. apply IH.
@@ -72,6 +73,7 @@ Proof.
   - apply H7.
   - apply H8. induction l; constructor; auto.
   - apply H9. induction l; constructor; auto.
+  - apply H10. induction rows; constructor; auto.
 Qed.
 
 Lemma node_sexps_ok : forall old s n, good n s ->
@@ -96,6 +98,7 @@ Proof.
     rewrite Forall_forall in H. split.
     + rewrite map_app. f_equal. apply map_fst_flat. intros x Hx. exact (proj1 (H x Hx n (all_good_in _ _ _ Hg Hx))).
     + rewrite !map_app. f_equal. apply map_snd_flat. intros x Hx. exact (proj2 (H x Hx n (all_good_in _ _ _ Hg Hx))).
+  - destruct Hg.
   - destruct Hg.
 Qed.
 
